@@ -37,9 +37,12 @@ type ImCase struct {
 }
 
 type liveNode struct {
-	n  datamodel.Node
-	v  model.Value
-	nb datamodel.NodeBuilder // the builder that produced it, if the history still holds it
+	n           datamodel.Node
+	v           model.Value
+	nb          datamodel.NodeBuilder // the builder that produced it, if the history still holds it
+	typed       bool                  // a schema-typed node of generated code: read with the typed observation rules
+	gen         bool                  // built by the generated builder (which can only build values of its type)
+	typedInside bool                  // derived from a typed node: may hold typed nodes as children
 }
 
 func protoForProducer(by string, v model.Value) datamodel.NodePrototype {
@@ -83,6 +86,16 @@ func ReplayImmutable(cs *ImCase) (*run.Finding, int) {
 			return fail(-1, "harness", "producer", "error", err.Error()), 0
 		}
 		live = append(live, liveNode{n: nb.Build(), v: v0, nb: nb})
+	case "gen":
+		pp, ok := GenProtos["T0"]
+		if !ok {
+			return fail(-1, "harness", "producer", "error", "this binary has no generated type T0"), 0
+		}
+		nb := pp[0].NewBuilder()
+		if err := conc.BuildInto(nb, v0); err != nil {
+			return fail(-1, "gengo", "producer", "error", err.Error()), 0
+		}
+		live = append(live, liveNode{n: nb.Build(), v: v0, nb: nb, typed: true, gen: true})
 	default:
 		nb := protoForProducer(cs.First.By, v0).NewBuilder()
 		if err := conc.BuildInto(nb, v0); err != nil {
@@ -96,7 +109,9 @@ func ReplayImmutable(cs *ImCase) (*run.Finding, int) {
 				continue // placeholder: the implementation documents that it cannot perform that operation
 			}
 			for pass := 1; pass <= 2; pass++ { // two reads of every accessor return equal results
-				if m := conc.CheckObs(ln.n, ln.v, model.ObsOpts{}); m != nil {
+				// a node with schema-typed nodes inside (embedded as they are by AssignNode) answers lookups of unknown keys
+				// with the typed implementation's own error type
+				if m := conc.CheckObs(ln.n, ln.v, model.ObsOpts{Typed: ln.typed || ln.typedInside, PrimaryOnly: ln.typed}); m != nil {
 					return fail(step, "node:"+cs.producerOf(j), "FinishedNeverChanges/"+m.Field, obsClass(m),
 						fmt.Sprintf("node #%d (%s) after %s, read pass %d: %v", j+1, cs.producerOf(j), after, pass, m))
 				}
@@ -193,8 +208,15 @@ func ReplayImmutable(cs *ImCase) (*run.Finding, int) {
 				made = nb.Build()
 				// the same builder is reset and used for something else
 				if pr := model.Safe(func() { nb.Reset() }); pr == nil {
-					conc.BuildInto(nb, reuseValue(src.v))
-					nb.Build()
+					rv := reuseValue(src.v)
+					if src.typed {
+						rv = src.v // a typed builder can only build values of its type
+					}
+					model.Safe(func() {
+						if conc.BuildInto(nb, rv) == nil {
+							nb.Build()
+						}
+					})
 				}
 			case "reset-reuse":
 				if src.nb == nil {
@@ -205,7 +227,11 @@ func ReplayImmutable(cs *ImCase) (*run.Finding, int) {
 					operr = fmt.Errorf("Reset panicked: %v", pr)
 					return
 				}
-				if operr = conc.BuildInto(nb, reuseValue(src.v)); operr == nil {
+				rv := reuseValue(src.v)
+				if src.gen && len(live) < len(cs.Nodes) {
+					rv = cs.Nodes[len(live)].V // the value the specification gives the reused generated builder
+				}
+				if operr = conc.BuildInto(nb, rv); operr == nil {
 					made, madeNb = nb.Build(), nb
 				}
 			case "walk":
@@ -316,7 +342,11 @@ func ReplayImmutable(cs *ImCase) (*run.Finding, int) {
 		}
 		if s.Made && len(live) < len(cs.Nodes) {
 			if made != nil {
-				live = append(live, liveNode{n: made, v: cs.Nodes[len(live)].V, nb: madeNb})
+				_, isTyped := made.(schema.TypedNode)
+				live = append(live, liveNode{n: made, v: cs.Nodes[len(live)].V, nb: madeNb,
+					typed:       isTyped && src.typed && (s.Op == "reset-reuse" || s.Op == "assign-top-then-reset"),
+					gen:         src.gen && s.Op == "reset-reuse",
+					typedInside: src.typed || src.typedInside})
 			} else {
 				live = append(live, liveNode{})
 			}
